@@ -268,7 +268,7 @@ Require Import Bebop.front.TokInv Bebop.front.LexInv.
 (* a decimal literal and the index it denotes *)
 Record idx := { xc : byte; xds : bytes; xv : N }.
 Definition xbytes (x : idx) : bytes := xc x :: xds x.
-Definition idx_ok (x : idx) : Prop := is_digit (xc x) = true /\ Forall (fun d => is_digit d = true) (xds x).
+Definition idx_ok (x : idx) : Prop := num_ok (xc x) (xds x).   (* decimal, or 0x... *)
 Definition mfdef := (idx * (ident * ident))%type.
 Inductive defn := DS (nm : ident) (fl : list (ident * ident)) (k : nat) | DM (nm : ident) (fl : list mfdef) (k : nat).
 
